@@ -454,9 +454,32 @@ class World:
         if sseq0:
             # stream sequence numbers start where a long-lived stream would be
             # (the state after sseq0 ordered messages), on both ends alike
+            # ... for the stream's FIRST life: after a stream reset both ends restart at 0, as the real code does
             class SeqDict(dict):
+                def __init__(self):
+                    super().__init__()
+                    self.was_reset = set()
+
                 def get(self, key, default=None, _o=sseq0):
-                    return dict.get(self, key, _o if default == 0 else default)
+                    return dict.get(self, key, (_o if key not in self.was_reset else 0) if default == 0 else default)
+
+                def pop(self, key, *default):
+                    self.was_reset.add(key)
+                    return dict.pop(self, key, *default)
+
+            class StreamsDict(dict):
+                def __init__(self):
+                    super().__init__()
+                    self.was_reset = set()
+
+                def pop(self, key, *default):
+                    self.was_reset.add(key)
+                    return dict.pop(self, key, *default)
+
+                def __setitem__(self, key, value):
+                    if key in self.was_reset and not len(value.reassembly):
+                        value.sequence_number = 0
+                    dict.__setitem__(self, key, value)
 
             base_cls = sctpmod.InboundStream
 
@@ -469,6 +492,7 @@ class World:
             self._restore.append(lambda: setattr(sctpmod, "InboundStream", base_cls))
             for side in "AB":
                 self.sctp[side]._outbound_stream_seq = SeqDict()
+                self.sctp[side]._inbound_streams = StreamsDict()
         self._instrument()
 
     # -- configuration helpers ------------------------------------------
@@ -533,7 +557,10 @@ class World:
                 if norm:
                     # sequence fields relative to their origins (C17 differential runs)
                     if w[0] == "DATA":
-                        sseq = w[4] if (w[1] & 4) else (w[4] - sseq0) & 0xFFFF   # unordered chunks carry no sequence
+                        # (a stream that has been reset numbers its next life from 0, whatever the origin was)
+                        was_reset = getattr(self.sctp[side]._outbound_stream_seq, "was_reset", ())
+                        base = 0 if w[3] in was_reset else sseq0
+                        sseq = w[4] if (w[1] & 4) else (w[4] - base) & 0xFFFF   # unordered chunks carry no sequence
                         w = (w[0], w[1], (w[2] - o_self) & 0xFFFFFFFF, w[3], sseq) + w[5:]
                     elif w[0] == "SACK":
                         w = (w[0], (w[1] - o_peer) & 0xFFFFFFFF) + w[2:]
